@@ -270,10 +270,12 @@ func InventoryObject(univ Universe, keys []int, withData bool) *unstructured.Uns
 // keepVariant is one spelling of the abstract attribute "keep": the lifecycle
 // annotations an object carries when keep = true and when keep = false. A
 // variant is fixed per (history, identifier) for live objects, last-applied
-// contents and manifests alike, and the keys of `off` never carry a preventing
-// value in `on`: kubectl's three-way merge works per annotation key, and only
-// under these two conditions does it act on the pair of annotations as it
-// would on one boolean (Pipeline.v `merged`: keep' = l_keep || (c_keep && not last_keep)).
+// contents and manifests alike, `off` is a subset of `on`, and the keys of
+// `off` never carry a preventing value in `on`: kubectl's three-way merge works
+// per annotation key, and only under these conditions does it act on the pair
+// of annotations as it would on one boolean (without off ⊆ on a live object
+// that drifted to keep = true lacks the keys of the keep = false manifest, and
+// an apply the model calls unchanged sends a patch) (Pipeline.v `merged`: keep' = l_keep || (c_keep && not last_keep)).
 type keepVariant struct{ on, off map[string]string }
 
 var keepVariants = []keepVariant{
@@ -290,9 +292,6 @@ var keepVariants = []keepVariant{
 	{on: map[string]string{common.OnRemoveAnnotation: common.OnRemoveKeep, common.LifecycleDeleteAnnotation: common.PreventDeletion}},
 	{on: map[string]string{common.OnRemoveAnnotation: common.OnRemoveKeep, common.LifecycleDeleteAnnotation: "x"},
 		off: map[string]string{common.LifecycleDeleteAnnotation: "x"}},
-	// one annotation prevents; without keep the other one is present with a value that does not
-	{on: map[string]string{common.OnRemoveAnnotation: common.OnRemoveKeep}, off: map[string]string{common.LifecycleDeleteAnnotation: "x"}},
-	{on: map[string]string{common.LifecycleDeleteAnnotation: common.PreventDeletion}, off: map[string]string{common.OnRemoveAnnotation: "delete"}},
 }
 
 func keepAnnotations(e UEntry, id int, keep bool) map[string]string {
